@@ -154,4 +154,10 @@ PROPS = {
         "assumptions": ["'the line on which the tag containing the failing statement begins' is read as the line of the first token of the failing statement's tag"],
         "explanation": "lexer line-counting and shift theorems on the model + generated multi-line templates with one failing statement, with a placement oracle and a shift oracle",
     },
+    "C11": {
+        "level": "proof", "cone": ["model/Ast.v", "model/Parser.v", "model/Eval.v", "proofs/EvalProofs.v", "props/C11.v"],
+        "trusted_base": COMMON_TB + ["eval_chain, eval_index, index_callee (with callee_key: the substring search on printed paths) and the method lookup of eval_call in model/Eval.v, and assign_callee / split_callee in model/Parser.v, transcribe evalIdentifier, evalAccessIndex, evalIndexCallee, evalCallExpression and the parser's callee rewiring; reflect field/method lookup is modelled on the shared struct family"],
+        "assumptions": [],
+        "explanation": "theorems about the rebinding key on the model (with refuted witnesses for the known findings) + all short paths over a self-describing graph compared with Go navigation",
+    },
 }
